@@ -77,7 +77,7 @@ def ift2(data, delta_f):
             numpy.fft.ifft2(
                     numpy.fft.ifftshift(data, axes=(-1,-2)
                     ), axes=(-1,-2))
-            , axes=(-1,-2)) * (N * delta_f) * (N * delta_f)
+            , axes=(-1,-2)) * N * delta_f * N * delta_f
 
     return DATA
 
@@ -153,5 +153,5 @@ def irft2(data, delta_f):
                     numpy.fft.ifftshift(data, axes=(-1,-2)), 
                     axes=(-2,-1)
                     ),
-            axes=(-1,-2)) * (N * delta_f) * (N * delta_f)
+            axes=(-1,-2)) * N * delta_f * N * delta_f
     return DATA
